@@ -5,7 +5,9 @@ Case line (one history):
     dg|<classes>|<objects>|<validators>|<op>;<op>;...
 
   classes     '/'-separated; one class = '<pfx>,<attr>,<attr>...'
-                <pfx>   '-' : class defines no __prefix__ ;  '=<text>' : __prefix__ = <text>
+                <pfx>   '-' : class body defines no __prefix__ ;  '=<text>' : __prefix__ = <text> ;
+                        optionally followed by '^<k>': the class is a subclass of (earlier) class k and
+                        inherits its __prefix__ and attributes unless it restates them
                 <attr>  'name=T:<vid>:<default>'   plain typed attribute, validator number <vid>
                         'name=D:<rawprefix>'       DelegatesTo('d', prefix=<rawprefix>)
                         'name=P:<rawprefix>'       PrototypedFrom('d', prefix=<rawprefix>)
@@ -65,26 +67,55 @@ class AttrSpec:
 
 
 class ClassSpec:
+    """One class of the line.  `own_*` is what the class body states; after `resolve` `.pfx`, `.attrs`,
+    `.by_name` are the *effective* ones (a subclass `^k` inherits `__prefix__` and the attributes of class k
+    unless it restates them; inherited attributes keep their position, new ones are appended)."""
+
     def __init__(self, s):
         parts = s.split(",")
-        p = parts[0]
-        if p == "-":
-            self.pfx = None
-        elif p.startswith("="):
-            self.pfx = p[1:]
+        head = parts[0]
+        self.base = None
+        if "^" in head:
+            head, b = head.split("^")
+            self.base = int(b)
+        if head == "-":
+            self.own_pfx = None
+        elif head.startswith("="):
+            self.own_pfx = head[1:]
         else:
             raise ValueError(s)
-        self.attrs = [AttrSpec(a) for a in parts[1:] if a]
-        self.by_name = {a.name: a for a in self.attrs}
-        if len(self.by_name) != len(self.attrs) or "d" in self.by_name:
+        self.own_attrs = [AttrSpec(a) for a in parts[1:] if a]
+        own = {a.name: a for a in self.own_attrs}
+        if len(own) != len(self.own_attrs) or "d" in own:
             raise ValueError("duplicate / reserved attribute name: " + s)
+        self.pfx, self.attrs, self.by_name = self.own_pfx, self.own_attrs, own
+
+    def resolve(self, earlier):
+        if self.base is None:
+            return
+        if self.base >= len(earlier):
+            raise ValueError("base class must be an earlier class")
+        b = earlier[self.base]
+        own = {a.name: a for a in self.own_attrs}
+        self.pfx = self.own_pfx if self.own_pfx is not None else b.pfx
+        self.attrs = [own.get(a.name, a) for a in b.attrs] + [a for a in self.own_attrs if a.name not in b.by_name]
+        self.by_name = {a.name: a for a in self.attrs}
+
+
+def parse_classes(text):
+    classes = []
+    for c in text.split("/"):
+        spec = ClassSpec(c)
+        spec.resolve(classes)
+        classes.append(spec)
+    return classes
 
 
 def parse_case(case):
     kind, classes, objects, validators, ops = case.split("|")
     if kind.lstrip("#") != "dg":
         raise ValueError(kind)
-    classes = [ClassSpec(c) for c in classes.split("/")]
+    classes = parse_classes(classes)
     objects = [int(x) for x in objects.split(",") if x.strip() != ""]
     validators = [v for v in validators.split(",") if v]
     ops = [parse_op(o) for o in ops.split(";") if o.strip()]
@@ -159,17 +190,18 @@ class World:
 
         self.pyclasses = []
         for i, c in enumerate(classes):
-            ns = {"d": Instance(HasTraits)}
-            if c.pfx is not None:
-                ns["__prefix__"] = c.pfx
-            for a in c.attrs:
+            ns = {} if c.base is not None else {"d": Instance(HasTraits)}
+            if c.own_pfx is not None:
+                ns["__prefix__"] = c.own_pfx
+            for a in c.own_attrs:
                 if a.kind == "T":
                     ns[a.name] = VT(a.vid, a.dflt)
                 elif a.kind == "D":
                     ns[a.name] = DelegatesTo("d", prefix=a.raw)
                 else:
                     ns[a.name] = PrototypedFrom("d", prefix=a.raw)
-            self.pyclasses.append(type(HasTraits)("K%d" % i, (HasTraits,), ns))
+            bases = (HasTraits,) if c.base is None else (self.pyclasses[c.base],)
+            self.pyclasses.append(type(HasTraits)("K%d" % i, bases, ns))
         self.cls_of = list(objects)
         self.objs = [self.pyclasses[k]() for k in objects]          # may raise: reported as init-err
         self.ids = {id(o): i for i, o in enumerate(self.objs)}
@@ -315,6 +347,13 @@ SHAPES = {
     "star2-deep": ("=a_,x=P:*/=b_,a_x=P:*/-,a_a_x=T:0:1,b_a_x=P:/-,b_a_x=T:1:2", "0,1,2,3,3"),
     # prefix chains with renaming at every level
     "pre-chain": ("-,x=D:p_*/-,p_x=P:q_*/-,q_p_x=T:0:3,p_x=T:1:9", "0,1,2,2"),
+    # inheritance: '*' (and the other styles) used through SUBCLASSES of the deferring class: inheriting
+    # __prefix__ without restating it, restating it, overriding it, overriding one attribute
+    "star-sub": ("=q_,x=D:*,y=P:*/-^0/=q_^0/=r_^0/-^0,y=D:*,z=P:x/"
+                 "-,q_x=T:0:3,q_y=T:1:4,x=T:0:7,y=T:1:8,r_x=T:0:5,r_y=T:1:6", "1,2,3,4,0,5,5"),
+    "star-sub2": ("=q_,x=P:*/-^0,y=D:*/-^1/-,q_x=T:0:3,q_y=T:1:4,x=T:0:7,y=T:1:8", "2,1,0,3,3"),
+    "sub-styles": ("-,x=D:,y=P:val,z=D:p_*/-^0/=p_^0,w=P:*/-,x=T:0:3,val=T:1:4,p_z=T:0:5,p_w=T:1:6,w=T:0:9,z=T:0:8",
+                   "1,2,0,3,3"),
     # malformed: target missing on the delegate's class; '*' without __prefix__; empty __prefix__
     "missing": ("-,x=D:nope,y=P:nope/-,x=T:0:3", "0,0,1"),
     "star-nopfx": ("-,x=D:*/-,x=T:0:3", "0,1"),
@@ -323,6 +362,7 @@ SHAPES = {
 MAIN_SHAPES = ["same-D", "same-P", "expl-D", "expl-P", "pre-D", "pre-P", "star-D", "star-P"]
 CHAIN_SHAPES = ["D-P-T", "P-D-T", "self-D", "star2-same", "star2-diff", "star2-diffP", "star2-deep", "pre-chain"]
 ODD_SHAPES = ["missing", "star-nopfx", "star-emptypfx"]
+SUB_SHAPES = ["star-sub", "star-sub2", "sub-styles"]
 
 
 def random_validators(rng, nops):
@@ -334,7 +374,7 @@ def random_validators(rng, nops):
 
 def random_history(rng, shape, maxops=12, build_first=None):
     classes, objects = SHAPES[shape]
-    cls = [ClassSpec(c) for c in classes.split("/")]
+    cls = parse_classes(classes)
     objs = [int(x) for x in objects.split(",")]
     n = len(objs)
     nops = rng.randint(1, maxops)
@@ -343,11 +383,11 @@ def random_history(rng, shape, maxops=12, build_first=None):
     mode = rng.random() if build_first is None else build_first
     order = list(range(n - 1))
     if mode < 0.55:
-        wiring = [(i, _next_obj(objs, i, rng)) for i in reversed(order)]
+        wiring = [(i, _next_obj(objs, i, rng, cls)) for i in reversed(order)]
     elif mode < 0.75:
-        wiring = [(i, _next_obj(objs, i, rng)) for i in order]
+        wiring = [(i, _next_obj(objs, i, rng, cls)) for i in order]
     elif mode < 0.9:
-        wiring = [(i, _next_obj(objs, i, rng)) for i in rng.sample(order, rng.randint(0, len(order)))]
+        wiring = [(i, _next_obj(objs, i, rng, cls)) for i in rng.sample(order, rng.randint(0, len(order)))]
     else:
         wiring = []
     for (o, t) in wiring:
@@ -364,7 +404,7 @@ def random_history(rng, shape, maxops=12, build_first=None):
         elif r < 0.55:
             ops.append("dl %d %s" % (o, rng.choice(nm)))
         elif r < 0.80:
-            t = rng.choice([None] + list(range(n))) if rng.random() < 0.5 else _next_obj(objs, o, rng)
+            t = rng.choice([None] + list(range(n))) if rng.random() < 0.5 else _next_obj(objs, o, rng, cls)
             ops.append("sw %d %s" % (o, "N" if t is None else t))
         elif r < 0.97:
             ops.append("rd %d %s" % (o, rng.choice(nm)))
@@ -374,10 +414,16 @@ def random_history(rng, shape, maxops=12, build_first=None):
     return "dg|%s|%s|%s|%s" % (classes, objects, ",".join(vals), ";".join(ops))
 
 
-def _next_obj(objs, i, rng):
-    """A plausible delegate for object i: an object of the next class in the chain (or of the same class)."""
+def _next_obj(objs, i, rng, cls=None):
+    """A plausible delegate for object i: an object of the next class in the chain; when there is none, an
+    object whose class declares one of the attributes object i defers to (or of the same class)."""
     want = objs[i] + 1
     cands = [j for j, k in enumerate(objs) if k == want and j != i]
+    if not cands and cls is not None:
+        mine = cls[objs[i]]
+        targets = {doc_target(a, a.name, mine) for a in mine.attrs if a.kind in ("D", "P")}
+        cands = [j for j, k in enumerate(objs) if j != i and targets & set(cls[k].by_name)
+                 and any(b.kind == "T" for b in cls[k].attrs)]
     if not cands or rng.random() < 0.15:
         cands = [j for j in range(len(objs)) if j != i]
     return rng.choice(cands) if cands else None
